@@ -7,6 +7,8 @@ package req
 //@ func validHeaderFieldValue(val) r
 //@   props C03
 
+// C01 (request line): the method is the first line up to its first blank, the request target what lies between that
+// blank and the last blank of the line (or the end of the line when there is no version).
 //@ func parseFirstLine(h, buf) n, err
 //@   props C03, C01
 //@   requires h != nil
@@ -14,6 +16,8 @@ package req
 //@   ensures h.disableNormalizing == old(h.disableNormalizing)
 //@   allocates
 //@   ensures err == nil ==> 0 <= n && n <= len(buf)
+//@   assert @C01 before RequestHeader.SetMethodBytes: sameArray(arg1, b) && off(arg1) == off(b) && len(arg1) >= 1 && len(arg1) < len(b) && b[len(arg1)] == ' ' && forall(k, 0, len(arg1), b[k] != ' ')
+//@   assert @C01 before RequestHeader.SetRequestURIBytes: sameArray(arg1, b) && off(arg1) == off(b) && len(arg1) <= len(b) && (len(arg1) == len(b) || (len(arg1) >= 1 && b[len(arg1)] == ' ')) && forall(k, 0, len(b), k > len(arg1) ==> b[k] != ' ')
 //@   loop 0:
 //@     invariant sameArray(bNext, buf) && off(bNext) >= off(buf) && off(bNext) + len(bNext) == off(buf) + len(buf)
 
